@@ -10,6 +10,7 @@ import (
 	"sync"
 
 	coraza "github.com/corazawaf/coraza/v3"
+	"github.com/corazawaf/coraza/v3/experimental/plugins"
 	"github.com/corazawaf/coraza/v3/internal/verif/auditcap"
 	"github.com/corazawaf/coraza/v3/internal/verif/mc"
 	"github.com/corazawaf/coraza/v3/internal/verif/probe"
@@ -178,6 +179,9 @@ func selfTest(c *runner.Ctx) {
 	c.Note("self test passed: lost update, race report, mutex silence, deadlock (%d schedules of the mutex scenario)", st.Execs)
 }
 
+var chainSeq int
+var chainConf string
+
 type scenario struct {
 	name    string
 	threads int
@@ -215,6 +219,7 @@ func run(c *runner.Ctx) {
 		{"2 transactions + WAF build/close", 3, b3},
 		{"2 threads x 2 transactions, pooled objects recycled across threads", 24, b3 - 1},
 		{"2 threads each building and closing a WAF with shared patterns", 33, b3},
+		{"2 threads building WAFs that introduce new transformation chains, then one WAF using both chains", 44, b3},
 	}
 	for si, sc := range scenarios {
 		// the scenarios are split over the workers of a variant by schedule prefix: the
@@ -252,6 +257,25 @@ func run(c *runner.Ctx) {
 				chosen = bodies[:2]
 			case 33:
 				chosen = []func(){bodies[2], bodies[2]}
+			case 44:
+				// chain names never seen by the process: the global chain registry is written by both builders
+				chainSeq++
+				na, nb := fmt.Sprintf("vta%d", chainSeq), fmt.Sprintf("vtb%d", chainSeq)
+				plugins.RegisterTransformation(na, func(s string) (string, bool, error) { return s + "A", true, nil })
+				plugins.RegisterTransformation(nb, func(s string) (string, bool, error) { return s + "B", true, nil })
+				ruleA := fmt.Sprintf("SecRule ARGS:q \"@streq vA\" \"id:1,phase:1,pass,log,t:none,t:%s\"\n", na)
+				ruleB := fmt.Sprintf("SecRule ARGS:q \"@streq vB\" \"id:2,phase:1,pass,log,t:none,t:%s\"\n", nb)
+				buildClose := func(conf string) func() {
+					return func() {
+						w2, err := scen.Build("SecRuleEngine On\n" + conf)
+						if err != nil {
+							panic("chain WAF: " + err.Error())
+						}
+						scen.Close(w2)
+					}
+				}
+				chosen = []func(){buildClose(ruleA), buildClose(ruleB)}
+				chainConf = "SecRuleEngine On\n" + ruleA + ruleB
 			case 24:
 				// each thread runs its transaction twice; the pool shim hands the object a
 				// thread has closed to whichever thread asks next
@@ -292,6 +316,19 @@ func run(c *runner.Ctx) {
 			if res.Deadlock == "" {
 				want := soloAudit
 				switch sc.threads {
+				case 44:
+					want = ""
+					// both chains on the same value in one phase: each rule must see its own transformation
+					wb, err := scen.Build(chainConf)
+					if err != nil {
+						report("panic:chain WAF "+err.Error(), err.Error())
+					} else {
+						o := scen.Run(wb, scen.Req{URI: "/p?q=v"}, scen.Options{})
+						scen.Close(wb)
+						if got := fmt.Sprint(len(o.Matched)); got != "2" {
+							report("transformation-chain-ids-collide", fmt.Sprintf("rules with the two chains registered concurrently: %d of 2 fired\n%s", len(o.Matched), o.Core()))
+						}
+					}
 				case 33:
 					want = ""
 				case 12:
@@ -300,7 +337,7 @@ func run(c *runner.Ctx) {
 					}
 					want = ""
 				default:
-					for i := 0; i < 2 && sc.threads != 33; i++ {
+					for i := 0; i < 2 && sc.threads != 33 && sc.threads != 44; i++ {
 						if out[i] != solo[i] {
 							report("cross-talk", fmt.Sprintf("transaction %d under this schedule:\n%s--- alone:\n%s", i, out[i], solo[i]))
 						}
